@@ -103,13 +103,16 @@ func checkCalleesOf(c *Ctx, p *Program, rule, what string, f *ssa.Function, must
 		return
 	}
 	// the callees of f, looking through wrappers of f's own package (two levels)
-	got := map[string]bool{}
+	got, direct := map[string]bool{}, map[string]bool{}
 	var collect func(g *ssa.Function, depth int)
 	collect = func(g *ssa.Function, depth int) {
 		for _, b := range g.Blocks {
 			for _, in := range b.Instrs {
 				if ci, ok := in.(ssa.CallInstruction); ok {
 					got[normName(p.staticCalleeName(ci.Common()))] = true
+					if depth == 0 {
+						direct[normName(p.staticCalleeName(ci.Common()))] = true
+					}
 					if cal := ci.Common().StaticCallee(); cal != nil && cal.Blocks != nil && cal.Pkg == f.Pkg && depth < 2 {
 						collect(cal, depth+1)
 					}
@@ -124,8 +127,15 @@ func checkCalleesOf(c *Ctx, p *Program, rule, what string, f *ssa.Function, must
 			bad = append(bad, "does not call "+m)
 		}
 	}
+	// a forbidden sibling counts when f calls it itself, or reaches it without passing a required callee
 	for _, m := range mustNot {
-		if got[normName(m)] {
+		viaMust := false
+		for _, mm := range must {
+			if direct[normName(mm)] {
+				viaMust = true
+			}
+		}
+		if direct[normName(m)] || got[normName(m)] && !viaMust {
 			bad = append(bad, "calls "+m)
 		}
 	}
